@@ -49,7 +49,8 @@ def cases(ctx):
                 if fault_at is None and where == "recv":
                     continue
                 for size in (1, 2, 1 << 31):
-                    for idle, gaps in ((0, [0, 0, 0]), (5, [1, 5, 6]), (5, [6, 6, 0])):
+                    # a gap is the idle time before the call; (gap, service) also gives the time the call itself takes
+                    for idle, gaps in ((0, [0, 0, 0]), (5, [1, 5, 6]), (5, [6, 6, 0]), (5, [(0, 30), (0, 0), (5, 9)])):
                         for ign in (False, True):
                             out.append((dict(base, ignore_exc=ign), (size, idle), ops, rbo, fault_at, where, gaps))
     return out
@@ -61,8 +62,10 @@ def build(case):
     clock = []
     t = 0
     for g in gaps:
-        t += g
-        clock += [t, t]
+        gap, svc = g if isinstance(g, tuple) else (g, 0)
+        t += gap
+        clock += [t, t + svc]         # checkout reads the clock at t, release at t + service time
+        t += svc
     return c, pc, ops, rbo, clock
 
 
@@ -101,7 +104,7 @@ def correspondence(ctx):
             "rule": "extracted PooledClient model vs the real class (results, socket traces with socket identity per command, "
                     "pool.used/free after each call, clients created): sequences of 3 of 7 operations x {no fault, fault at the "
                     "send / at a recv of call 0,1,2} x max_pool_size {1,2,unbounded} x idle gaps {none; below,at,above the "
-                    "timeout; above,above,none} x ignore_exc; non-trivial = a fault is injected",
+                    "timeout; above,above,none; slow calls with short gaps} x ignore_exc; non-trivial = a fault is injected",
             "samples": [{"cfg": repr(c), "pool": pc, "ops": repr(o)[:80], "script": repr(s), "choices": repr(h), "clock": k} for c, pc, o, s, h, r, k in cl[50:53]],
             "distribution": {"cases": len(cl), "with_fault": sum(1 for x in cl if x[3] or x[4])}, "disagreements": dis}
 
@@ -151,6 +154,11 @@ def search(ctx):
                 quits = sum(1 for o in ops[:-1] if o[0] == 17)
                 if opened > 1 + quits:
                     why = "a healthy idle connection was not reused: %d sockets opened for %d calls (%d quits)" % (opened, len(ops), quits)
+            if why is None and fault_at is None and pc[1] == 5 and gaps == [(0, 30), (0, 0), (5, 9)] and not any(o[0] == 17 for o in ops):
+                # slow calls, but never idle for longer than the timeout: idle time counts from the release, so one connection serves all
+                opened = sum(1 for e in trace if e[0] == 1)
+                if opened > 1:
+                    why = "a connection that had been idle for at most pool_idle_timeout was not reused after a slow call: %d sockets opened" % opened
             if why is None and fault_at is None and pc[1] == 5 and gaps == [6, 6, 0] and not any(o[0] == 17 for o in ops):
                 # every gap exceeds the idle timeout: the idle client must be closed and a new socket used (calls 0 and 1)
                 s0 = {sid for sid, _ in by_op.get(0, [])}
